@@ -172,7 +172,7 @@ func checkSeekTables(p *Program, r *Report) {
 		f := p.MustFunc("(*Reader).seekLinear")
 		fk := funcKey(f)
 		cfg := &simCfg{Event: map[string]bool{"(*tableIter).nextBlock": true, "(*tableIter).Next": true, "(*blockIter).seek": true}, Pure: map[string]bool{keyName: true, "method:(record).typ": true},
-			Opaque: map[string]bool{"newRecord": true}}
+			Opaque: map[string]bool{"newRecord": true}, FlagExits: true}
 		c, _ := runSim(p, f, cfg, nil)
 		wantRec := mk("param", fk+"."+f.Params[2].Name(), f.Params[2].Type())
 		nB, nS := 0, 0
